@@ -143,3 +143,68 @@ def pat_is_none(pat):
 
 def pat_is_catchall(pat):
     return bool(pat and pat.get("k") in ("wild", "bind"))
+
+
+def mentions(t):
+    """Everything a term refers to, including inside the HIR bodies of closures it contains:
+    {'callees': set, 'defs': set (named consts/statics/fns used as values), 'ctors': set, 'nodes': [call HIR nodes]}"""
+    out = {"callees": set(), "defs": set(), "ctors": set(), "nodes": []}
+    for x in subterms(t):
+        k = x[0]
+        if k == "call":
+            out["callees"].add(x[1])
+            if len(x) > 3 and isinstance(x[3], dict):
+                out["nodes"].append(x[3])
+        elif k == "def":
+            out["defs"].add(x[1])
+        elif k == "ctor":
+            out["ctors"].add(x[1])
+        elif k == "closure":
+            for n in walk(x[1]["body"]):
+                c = callee(n)
+                if c:
+                    out["callees"].add(c)
+                    out["nodes"].append(n)
+                if n.get("k") == "path":
+                    r = n["res"]
+                    if n.get("ctor"):
+                        out["ctors"].add(n["ctor"])
+                    elif r.get("r") == "def":
+                        out["defs"].add(r["path"])
+                if n.get("k") == "call" and n.get("ctor"):
+                    out["ctors"].add(n["ctor"])
+                if n.get("k") in ("pexpr", "ptuplestruct", "pstruct") and n.get("path"):
+                    out["ctors"].add(n["path"])
+    return out
+
+
+def pat_variants(pat):
+    """All variant paths named inside a pattern."""
+    out = set()
+    for n in walk(pat):
+        if n.get("path"):
+            out.add(n["path"])
+    if isinstance(pat, dict) and pat.get("path"):
+        out.add(pat["path"])
+    return out
+
+
+def node_resolved(node):
+    """Resolved impl fn of a call/mcall HIR node, if the compiler could resolve it."""
+    if not isinstance(node, dict):
+        return None
+    if node.get("k") == "mcall":
+        return node.get("resolved")
+    if node.get("k") == "call" and isinstance(node.get("f"), dict):
+        return node["f"].get("res", {}).get("resolved")
+    return None
+
+
+def node_self_args(node):
+    if not isinstance(node, dict):
+        return []
+    if node.get("k") == "mcall":
+        return node.get("gargs", [])
+    if node.get("k") == "call" and isinstance(node.get("f"), dict):
+        return node["f"].get("res", {}).get("args", [])
+    return []
